@@ -142,6 +142,13 @@ def utf8_sequences(tier, rng):
         for b in range(0x80, 0xc0):
             out.append(bytes([a, b, 0x80, 0x80]))
             out.append(bytes([a, b, 0xbf, 0xbf]))
+    # every plane with the low sixteen bits at the seams of the BMP (a surrogate test must look at the whole value), and the characters that
+    # look like, or are mapped to, a full stop elsewhere: in a local part they are ordinary characters
+    for plane in range(1, 17):
+        for low in (0x0000, 0x0001, 0x07ff, 0x0800, 0xd7ff, 0xd800, 0xdbff, 0xdc00, 0xdfff, 0xe000, 0xfffd, 0xfffe, 0xffff):
+            out.append(chr((plane << 16) | low).encode("utf-8", "surrogatepass"))
+    for cp in (0x3002, 0xff0e, 0xff61, 0x2024, 0xfe52, 0x00b7, 0x0701, 0x06d4, 0x2e2c, 0xff20, 0xfe6b, 0x201c, 0xff02, 0xff3c, 0xfeff, 0x200b, 0x00a0, 0x3000):
+        out.append(chr(cp).encode())
     return out
 
 
@@ -254,6 +261,13 @@ def ipv6_shapes(tier, rng):
                     out.append(L + b"::" + Rt)
                     if left and (right or tail):
                         out.append(L + b":" + Rt)          # no "::"
+                    # an empty FIRST group (one leading colon that is not half of a "::"), with and without "::" further right, and an empty last one
+                    if left and w == widths[0]:
+                        out.append(b":" + L + b"::" + Rt)
+                        if right or tail:
+                            out.append(b":" + L + b":" + Rt)
+                        if not tail:
+                            out.append(L + b"::" + Rt + b":")
     # group widths 0-5 in each position of a full address
     for pos in range(8):
         for w in range(0, 6):
